@@ -156,8 +156,14 @@ def out_string(d, maxlen):
     return s
 
 
+def fin(z):
+    z = ((z ^ (z >> 30)) * 0xBF58476D1CE4E5B9) & M64
+    z = ((z ^ (z >> 27)) * 0x94D049BB133111EB) & M64
+    return z ^ (z >> 31)
+
+
 def sub(d, k):
-    return (d * 31 + 7 * (k + 1)) & M64
+    return fin((d * 31 + 7 * (k + 1)) & M64)
 
 
 # ------------------------------------------------------------------ YAML
